@@ -330,12 +330,12 @@ func dispatch(c *Ctx, xf *XFile) {
 					for _, in := range b.Instrs {
 						cal := staticCallee(in)
 						if cal != nil && cal.Name() == "RegisterMany" {
-							if a, ok := callCommon(in).Args[len(callCommon(in).Args)-1].(*ssa.Call); ok && a.Call.StaticCallee() != nil {
-								regd[a.Call.StaticCallee().Name()] = true
+							if a, ok := callCommon(in).Args[len(callCommon(in).Args)-1].(*ssa.Call); ok && staticCallee(a) != nil {
+								regd[staticCallee(a).Name()] = true
 							}
 						}
 						if g, ok := in.(*ssa.Go); ok {
-							if gc := g.Call.StaticCallee(); gc != nil && gc.Name() == "Run" {
+							if gc := staticCallee(g); gc != nil && gc.Name() == "Run" {
 								served = true
 							}
 						}
